@@ -76,15 +76,39 @@ func judgeDoc(c *Case) (fs []failure, links int, trace any) {
 		}
 		fs, links = append(fs, only...), links+l2
 	}
+	if c.Kind != "json" {
+		// the same document delivered gzip-compressed with a Content-Length: Zeno's HTTP client hands the body on
+		// decompressed and leaves Response.ContentLength (and the header) at the size of the compressed bytes
+		f3, l3, t3 := judgeDocFrom(c, "gzip+length")
+		base := map[string]bool{}
+		for _, f := range fs {
+			base[f.Type+"|"+f.Class] = true
+		}
+		var only []failure
+		for _, f := range f3 {
+			if !base[f.Type+"|"+f.Class] {
+				f.Class += " delivery=gzip-with-content-length"
+				only = append(only, f)
+			}
+		}
+		if len(fs) == 0 && len(only) > 0 {
+			trace = t3
+		}
+		fs, links = append(fs, only...), links+l3
+	}
 	return
 }
 
 func judgeDocFrom(c *Case, server string) (fs []failure, links int, trace any) {
 	h := map[string]string{"Content-Type": c.CType}
+	gz := server == "gzip+length"
+	if gz {
+		server = ""
+	}
 	if server != "" {
 		h["Server"] = server
 	}
-	r := fetch(c.URL, c.Hops, c.MaxHops, response{Header: h, Body: c.Body, Direct: c.Direct, DC: c.DC, DAC: c.DAC})
+	r := fetch(c.URL, c.Hops, c.MaxHops, response{Header: h, Body: c.Body, Direct: c.Direct, DC: c.DC, DAC: c.DAC, GzipLen: gz})
 	links = len(r.Children) + len(r.Outlinks)
 	if r.Panic != "" {
 		return []failure{{Type: "panic", Detail: r.Panic}}, links, r
